@@ -380,6 +380,7 @@ theorem run_trap_restores_status (body : Body) (c : Nat) (exit : Int) (t : TrapM
     | ret st => simp only [hd]
     | exit st => simp only [hd]
     | other => simp only [hd]
+    | abort st => simp only [hd]
 
 /-- non-vacuity: two signals pending (one caught three times), one command each; both bodies run
     once, in signal order, with `$?` = 5 kept although every body sets `$?` to 7 -/
